@@ -22,7 +22,7 @@ Inductive tail := TEOF | TClosed | TOther.
    ENone     - nil
    EClosed   - net.ErrClosed
    EOther    - any other error (incl. "unexpected message type")
-   ERawClose - a raw *websocket.CloseError returned together with n > 0 (conn.go:203-210 returns the
+   ERawClose - a raw *websocket.CloseError returned together with n > 0 (conn.go:194-201 returns the
                reader's error unmapped in that branch)
    EBlock    - not a result: the real call would block waiting for the peer (nothing to read yet) *)
 Inductive rerr := ENone | EClosed | EOther | ERawClose | EBlock.
@@ -31,7 +31,7 @@ Section WsConn.
 Variable A : Type.
 
 (* What the peer put on the wire, at message granularity.
-   Bin b        - a complete binary message (what Conn.Write sends, conn.go:218)
+   Bin b        - a complete binary message (what Conn.Write sends, conn.go:217)
    BinCut b c   - a binary message of which only the bytes b arrive before the connection fails
                   (c = true: the transport is closed -> *CloseError 1006; c = false: some other error)
    Text b       - a complete non-binary data message
@@ -73,7 +73,7 @@ Definition reader_read (rem : list A) (t : tail) (n k : nat) (e : bool)
         end
   end.
 
-(* conn.go:199-216: the part of the loop body after c.reader is set.
+(* conn.go:193-212: the part of the loop body after c.reader is set.
    None = "0, io.EOF": c.reader = nil and go round the loop again. *)
 Definition with_reader (rem : list A) (t : tail) (ib : list frame) (n k : nat) (e : bool)
   : option (conn * rres) :=
@@ -81,7 +81,7 @@ Definition with_reader (rem : list A) (t : tail) (ib : list frame) (n k : nat) (
   | (d, err, rem') =>
       match d with
       | _ :: _ =>
-          (* n > 0 (conn.go:200-208) *)
+          (* n > 0 (conn.go:194-202) *)
           match err with
           | None => Some (mkConn (Some (rem', t)) ib, mkRes d ENone)
           | Some TEOF => Some (mkConn None ib, mkRes d ENone)         (* reader reset, EOF -> nil *)
@@ -91,14 +91,14 @@ Definition with_reader (rem : list A) (t : tail) (ib : list frame) (n k : nat) (
       | [] =>
           match err with
           | None => Some (mkConn (Some (rem', t)) ib, mkRes [] ENone)      (* only for len(b) = 0 *)
-          | Some TEOF => None                                              (* conn.go:218-219 *)
-          | Some TClosed => Some (mkConn (Some (rem', t)) ib, mkRes [] EClosed)  (* conn.go:210-214 *)
+          | Some TEOF => None                                              (* conn.go:211-212 *)
+          | Some TClosed => Some (mkConn (Some (rem', t)) ib, mkRes [] EClosed)  (* conn.go:203-208 *)
           | Some TOther => Some (mkConn (Some (rem', t)) ib, mkRes [] EOther)
           end
       end
   end.
 
-(* conn.go:185-198 + loop: c.reader == nil, fetch the next message. Structural in the inbox: every
+(* conn.go:178-191 + loop: c.reader == nil, fetch the next message. Structural in the inbox: every
    iteration of the Go loop that comes back here has consumed one (empty) binary message. *)
 Fixpoint next_msg (ib : list frame) (n k : nat) (e : bool) : conn * rres :=
   match ib with
@@ -115,12 +115,12 @@ Fixpoint next_msg (ib : list frame) (n k : nat) (e : bool) : conn * rres :=
       | Some r => r
       | None => (mkConn None ib', mkRes [] EBlock)   (* unreachable: the tail is not TEOF *)
       end
-  | Text _ :: rest => (mkConn None rest, mkRes [] EOther)    (* conn.go:194-196; the next NextReader skips it *)
-  | CloseFrame :: _ => (mkConn None ib, mkRes [] EClosed)    (* conn.go:188-191 *)
-  | Err :: _ => (mkConn None ib, mkRes [] EOther)            (* conn.go:192 *)
+  | Text _ :: rest => (mkConn None rest, mkRes [] EOther)    (* conn.go:187-189; the next NextReader skips it *)
+  | CloseFrame :: _ => (mkConn None ib, mkRes [] EClosed)    (* conn.go:181-184 *)
+  | Err :: _ => (mkConn None ib, mkRes [] EOther)            (* conn.go:185 *)
   end.
 
-(* Conn.Read(b) with len(b) = n — conn.go:183-221 *)
+(* Conn.Read(b) with len(b) = n — conn.go:176-214 *)
 Definition read (c : conn) (n k : nat) (e : bool) : conn * rres :=
   match cur c with
   | Some (rem, t) =>
@@ -131,7 +131,7 @@ Definition read (c : conn) (n k : nat) (e : bool) : conn * rres :=
   | None => next_msg (inbox c) n k e
   end.
 
-(* the peer's Conn.Write(b): exactly one binary message per call — conn.go:223-232 *)
+(* the peer's Conn.Write(b): exactly one binary message per call — conn.go:216-225 *)
 Definition write (c : conn) (b : list A) : conn := mkConn (cur c) (inbox c ++ [Bin b]).
 
 (* the peer's Conn.Close() (gorilla closes the transport; the reader sees a *CloseError 1006),
